@@ -265,7 +265,7 @@ func init() {
 	dec := []string{"graph.Graph6Decode", "graph.Sparse6Decode"}
 	register(&propDef{
 		id:          "C08",
-		explanation: "Decides panic-freedom and termination of Graph6Decode and Sparse6Decode themselves for every input string: BOUNDS (every string/slice index, slice expression, make size, non-constant divisor and signed shift count is proved in range by E-PROVE from the dominating guards: polynomial terms, division facts, phi-induction), TERM (every loop has a strictly monotone integer counter bounded by a loop-invariant value: ranking function), PRECOND (every callee either cannot panic, or its explicit panics are refuted at the call site after substituting the actual arguments, or its stated range contract (AddEdge: 0 <= i, j < N) is proved), plus no explicit panic is reachable; FRESH (the graph returned reaches no package-level memory: no cached instance is shared between calls). Apart from one obligation - an unsigned subtraction whose result is measured by a math/bits function (k = 64 - LeadingZeros64(n-1)) must be proved not to wrap - integer arithmetic is assumed not to overflow (the property's own bound 1 <= n <= 4096 for the pair value, 6*len(s) and n(n-1)/2). Does not decide which malformed strings yield an error rather than a graph, nor the re-encode/decode clause.",
+		explanation: "Decides panic-freedom and termination of Graph6Decode and Sparse6Decode themselves for every input string: BOUNDS (every string/slice index, slice expression, make size, non-constant divisor and signed shift count is proved in range by E-PROVE from the dominating guards: polynomial terms, division facts, phi-induction), TERM (every loop has a strictly monotone integer counter bounded by a loop-invariant value: ranking function), PRECOND (every callee either cannot panic, or its explicit panics are refuted at the call site after substituting the actual arguments, or its stated range contract (AddEdge: 0 <= i, j < N) is proved), plus no explicit panic is reachable; FRESH (the graph returned reaches no package-level memory: no cached instance is shared between calls). Apart from one obligation - an unsigned subtraction whose result is measured by a math/bits function (k = 64 - LeadingZeros64(n-1)) must be proved not to wrap - integer arithmetic is assumed not to overflow (the property's own bound 1 <= n <= 4096 for the pair value, 6*len(s) and n(n-1)/2). Does not decide which malformed strings yield an error rather than a graph, nor the re-encode/decode clause. SIGNCONV: in the decoders no signed value is converted to an unsigned type (a shift count, an index) unless it is proved not to be negative.",
 		notDecided:  []string{"that re-encoding a successfully decoded graph and decoding again gives the same graph", "that an error (rather than some graph) is returned for each particular malformed string", "allocation size for huge declared n (outside the property's bound)", "index safety inside callees beyond their explicit panics and stated contracts (NewDense, NewSparse, AddEdge bodies)"},
 		assumptions: []string{"declared n <= 4096, so n(n-1)/2, 6*len(s) and uint64->int conversions do not overflow", "trusted contracts: (*SparseGraph).AddEdge(i, j) is panic-free for 0 <= i, j < N; fmt/errors/strings/bits functions listed in noPanicStd do not panic"},
 		run: func(c *Ctx, tier string) []*RuleResult {
@@ -278,7 +278,18 @@ func init() {
 			for _, n := range dec {
 				freshResult(c, fr, c.Fn(n), 0, nil, nil, "is a graph of its own")
 			}
-			return []*RuleResult{ruleBounds(c, dec, tier), ruleTerm(c, dec), rulePrecond(c, dec), hd, fr}
+			// a negative value converted to an unsigned type is huge: as a shift count it makes the word 0
+			// (an 18-bit window shifted by uint(17 - pos%6 - k) reads pairs as b = 0, x = 0 for k >= 15)
+			only := map[*ssa.Function]bool{}
+			for _, n := range dec {
+				for _, f := range codecScope(c.Fn(n)) {
+					only[f] = true
+				}
+			}
+			sc := ruleSignConvIn(c, "graph", only, "as a shift count or an index it is huge, and a shift by it yields 0")
+			sc.Doc = "in the decoders no signed value is converted to an unsigned type (a shift count, say) unless it is proved not to be negative"
+			sc.MinInst = 1
+			return []*RuleResult{ruleBounds(c, dec, tier), ruleTerm(c, dec), rulePrecond(c, dec), hd, fr, sc}
 		},
 		controls: func(ctl *Ctx) []*RuleResult {
 			b := ruleBounds(ctl, []string{"decctl.BadIndexBeforeCheck", "decctl.BadLoopEnd", "decctl.GoodDecode"}, "quick")
